@@ -220,6 +220,16 @@ pub fn auth_matrix(w: &World, h: &Hist, book: &Book, cfg: &Cfg, r: &mut Rng, st:
     if let Some(f) = &cfg.bid_fee {
         senders.push(f.account.clone());
     }
+    // look-alikes of role holders and owners: another letter case, one character more, one less
+    let real: Vec<String> = senders.iter().filter(|s| s.as_str() != "stranger" && s.as_str() != CONTRACT).cloned().collect();
+    if !real.is_empty() {
+        let s0 = r.pick(&real).clone();
+        senders.push(s0.to_uppercase());
+        senders.push(format!("{}x", s0));
+        if s0.len() > 1 {
+            senders.push(s0[..s0.len() - 1].to_string());
+        }
+    }
     senders.sort();
     senders.dedup();
     // configuration requests in which the sender names itself for a role
@@ -337,6 +347,16 @@ pub fn approve_probes(w: &World, h: &Hist, book: &Book, cfg: &Cfg, r: &mut Rng, 
     }
     senders.push(a.owner.clone());
     senders.extend(cfg.executors.iter().cloned());
+    senders.push("stranger".into());
+    // look-alikes of an approver: another letter case, one character more, one less
+    if !cfg.approvers.is_empty() {
+        let s0 = r.pick(&cfg.approvers).clone();
+        senders.push(s0.to_uppercase());
+        senders.push(format!("{}x", s0));
+        if s0.len() > 1 {
+            senders.push(s0[..s0.len() - 1].to_string());
+        }
+    }
     senders.sort();
     senders.dedup();
     for s in &senders {
